@@ -17,12 +17,21 @@ CHECKS = {
     "C02": dict(cat="proof", ref="6 C02",
                 text="for every command class: decode(build(args)) returns every constructor argument under exactly one key at the full width the standard gives the field (all fields symbolic at once), encode(decode(cdb)) reproduces the bytes, and encode/decode are inverse on every byte string of the CDB's length whose undefined bits are zero; z3 per clause",
                 note=TRUST + "the library's key names are discovered by probing the real code, not read from its tables; for the SAT LBA the dictionary carries the scattered wire field (compared as such); non-interference between fields follows from the joint quantification"),
+    "C07": dict(cat="proof", ref="6 C07",
+                text="SCSIDevice.execute and ISCSIDevice.execute interpreted over stub bindings whose status byte (all 256 values) and sense buffer contents are symbolic, raw-sense capture on and off: normal return only for GOOD (or CHECK CONDITION reported through the raw sense attached on request), CHECK CONDITION raises the device's CheckCondition carrying key/ASC/ASCQ of exactly these bytes, each named status raises the error of that name (iSCSI), everything else raises; the facade half (errors propagate, nothing decoded) is discharged on the C13 units",
+                note=TRUST + "assumed contracts of sgio.execute / iscsi.Task / Context.command (listed in the evidence); on SG_IO the library never sees a status byte, so 'named error' applies to iSCSI only"),
+    "C08": dict(cat="proof", ref="6 C08",
+                text="SCSICheckCondition(sense), str() and print_data interpreted for every buffer length 1..32 and 252 (1..252 thorough) with every byte symbolic: never raises (every dictionary look-up with a symbolic key is an obligation 'key in table or guarded'), sense key / ASC / ASCQ equal the bytes at SPC's positions for fixed and descriptor, current and deferred formats; ground obligations for a reference sample of T10 texts",
+                note=TRUST + "lengths are enumerated, contents are quantified; T10 texts checked on a reference sample of 18 codes x 4 formats"),
     "C10": dict(cat="proof", ref="6 C10",
                 text="scsi_int_to_ba / scsi_ba_to_int for every size 0..16 (32 thorough) against division/modulo spec functions; encode_dict / decode_bits for every contiguous mask of 1..72 bits at every bit alignment (1..128 thorough) plus every mask in the repository, at a symbolic byte offset of an arbitrary buffer (z3 arrays, skolem index for the frame clause); blobs b/w/dw; order independence and decode(encode) on every layout table of the repository",
                 note=TRUST + "the mask family is finite (stated); a proof parametric in the mask is not attempted; callers verified modularly use these contracts"),
     "C14": dict(cat="proof", ref="6 C14",
                 text="one ground obligation per table entry (5 sets, 249 opcodes, every service action, 9 status names, all cross-set pairs) against spec/t10_opcodes.py, read from the live Enum/OpCode objects; SCSICommand.init_cdb verified for every integer opcode value (symbolic, 129-bit range)",
                 note=TRUST + "T10 code list transcribed by hand; names unknown to the reference make the check undecided"),
+    "C15": dict(cat="proof", ref="6 C15",
+                text="per-call contracts of SCSIDevice.__init__/open/close/execute/_is_replugged/__enter__/__exit__, ISCSIDevice.close/__exit__ and SCSI.__exit__ over a ghost file system (path -> inode | absent) with an arbitrary environment step between open and execute (old and new inode symbolic, node possibly gone, close() possibly failing), detection on/off, read-only/read-write: a command only ever goes through an open handle on the node that currently exists, stale handles are closed exactly once, a vanished node is an error, the representation invariant is re-established on every exit; history quantifier by induction over calls and environment steps",
+                note=TRUST + "assumed contracts of open / os.stat / file.close; environment steps happen between library calls"),
     "C17": dict(cat="proof", ref="6 C17",
                 text="exceptional postconditions on the constructor runs: MissingBlocksizeException iff the block size is needed and zero (READ/WRITE/WRITE SAME/ATA), OpcodeException iff the opcode has no fixed CDB length, for all other argument values",
                 note=TRUST + "refusals inside PR IN / EXTENDED COPY / TransportID marshalling are added with the C05 units"),
